@@ -76,7 +76,7 @@ def gen_header(rng):
     for t in types_:
         p = t
         if rng.random() < 0.6:
-            q = rng.choice(["0.9", "0.8", "0.5", "0.1", "1", "1.0", "0.75", "0.001", "0.30"])
+            q = rng.choice(["0.9", "0.8", "0.5", "0.1", "1", "1.0", "0.75", "0.001", "0.30", "0", "0.0", "0.000", "1.000"])
             a, b = ws(), ws()
             p += a + ";" + b + "q=" + q
             has_q = True
